@@ -8,6 +8,7 @@
     weights d n matching gr one [p..]            -> [w..]            QutipResult._weights
     bitprobs d n one cutoff [p..]                -> [bits=p,..]      QutipState.bitstring_probabilities
     kernel n eps epsp [w..]                      -> [w'..]           detection errors
+    prep eta [u..]                               -> bits weight      bad atoms of one run (_noisy_runs)
     store reset | put u tag t v | times obs|tag k | get obs|tag k t | tagged | snap
     should own dflt t T                          -> code spec        Observable.__call__
     legacy dflt extras T m                       -> full | [t..]     _get_legacy_evaluation_times
@@ -195,6 +196,12 @@ def handle (m : M) (line : String) : M × String :=
     match parseNat? n, parseRat? eps, parseRat? epsp, parseList? parseRat? w with
     | some n, some eps, some epsp, some w => (m, showList showRat (applyKernel n eps epsp w))
     | _, _, _, _ => (m, "bad args")
+  | ["prep", eta, u] =>
+    match parseRat? eta, parseList? parseRat? u with
+    | some eta, some u =>
+      let bad := drawBad eta u
+      (m, showBits (decodeConfig (encodeConfig bad)) ++ " " ++ showRat (configWeight eta bad))
+    | _, _ => (m, "bad args")
   | "store" :: rest => stepStore m rest
   | ["should", own, dflt, t, T] =>
     match parseOpt? (parseList? parseRat?) own, parseDefault? dflt, parseRat? t, parseNat? T with
